@@ -70,6 +70,28 @@ def main():
             import ply.yacc as _Y
             _Y.LRGeneratedTable = lambda *a, **k: crash("regen_start")
     want = set(job.get("want_outcomes") or [])
+    sub = job.get("subclass")
+    if sub:
+        # A user subclass that declares ANOTHER grammar (one alternative of one rule removed): its tables must be those
+        # of its own declaration, whatever was built in the process before it.  order = "base_first": a plain DDLParser
+        # is constructed first; "sub_first": the subclass is the first parser class the process ever sees.
+        _orig = getattr(DDLParser, sub["rule"])
+        _alts = (_orig.__doc__ or "").split("|")
+        _newdoc = "|".join(_alts[:sub["drop"]] + _alts[sub["drop"] + 1:])
+
+        def _f(self, p):            # exactly (self, p): PLY validates the argument count of grammar functions
+            return _orig(self, p)
+        _f.__doc__ = _newdoc
+        _f.__name__ = _orig.__name__
+        _f.__qualname__ = _orig.__qualname__
+        _f.__code__ = _f.__code__.replace(co_firstlineno=_orig.__code__.co_firstlineno, co_filename=_orig.__code__.co_filename)
+        Base = DDLParser
+        if sub.get("order") == "base_first":
+            try:
+                Base("create table verif_base_first (a int not null);").run()
+            except BaseException as e:  # noqa
+                res["ctor_exc"] = ["ctor-exc", type(e).__name__, str(e)[:200]]
+        DDLParser = type("UserDialect", (Base,), {sub["rule"]: _f})
 
     def one(it):
         try:
